@@ -272,7 +272,9 @@ def derive(rng, A, arrA, how):
     if how == "split_nogap":
         return list(A.split_time_gaps(1e12)) + list(A.split_distance_gaps(1e30)) + list(A.split_speed_outliers(1e30))
     if how == "merge":
-        other, _, _ = fresh(rng)
+        # the partner is built the same way as A (same storage mode, same cache state)
+        a_mode = "se3" if hasattr(A, "_poses_se3") and not hasattr(A, "_positions_xyz") else None
+        other, _, _ = fresh(rng, mode=a_mode, materialise=False if a_mode else None)
         other.timestamps = other.timestamps + 1e7
         return [trajectory.merge([A, other])]
     if how == "dataframe":
